@@ -5,6 +5,7 @@ from fractions import Fraction
 
 from . import build, driver, smt
 from .ir import parse_module
+from . import coverage
 
 VERIF = build.VERIF
 MAX_REPLAYS_PER_KEY = 2
@@ -334,6 +335,7 @@ def run_check(P, tier, seed, a):
                    ir_steps=s['steps'], symbols=s['nsyms'], terms=s['nterms'], obligations=s['obligations'], trivial=s['trivial'],
                    exec_s=round(s.get('exec_s', 0), 2)) for s in summaries][:200],
         functions_executed=top_functions(summaries), stubs_hit=ext_hits(summaries),
+        block_coverage=coverage.report(mod, summaries) if not a.only else dict(note='partial run (--only)'),
         libm_small_values=libm_log(summaries),
         solver_time_s=round(stats['solver_time'], 2), slowest_batches=slowest, goals_by_solver=stats['by_solver'],
         differential=dict(runs=len(diffs), ok=sum(1 for d in diffs if d.get('ok')), values_compared=sum(d.get('compared', 0) for d in diffs)),
